@@ -370,6 +370,11 @@ func mapsEqual(x, y any) (err error) {
 	}
 
 	for _, key := range xrv.MapKeys() {
+		if !yrv.MapIndex(key).IsValid() {
+			err = errorf("Map key mismatch")
+			return
+		}
+
 		xval := xrv.MapIndex(key).Interface()
 		yval := yrv.MapIndex(key).Interface()
 		if err = valuesEqual(xval, yval); err != nil {
